@@ -43,3 +43,18 @@ Example C09_wf_example :
      SFor 1 SNull ENull SNull [SBreak] None;
      SIf 1 (EIndex 1 (EObj 1 []) (EStr 1 [])) [] [] None] None [] [] []) = true.
 Proof. reflexivity. Qed.
+
+(* ---- the hypothesis discharged (Proofs/ParseWf.v): every program the parser model returns without an
+   error is well-formed - the walk of ParseTotal.v over the 20 parse functions with one more postcondition:
+   a function records a new error or returns a well-formed answer - so, for EVERY byte string and every data
+   map, the model of EvaluateString never reaches a branch in which the Go code would panic *)
+From TW Require Import GenToken Lexer Parser Render ParseTotal ParseWf.
+
+Theorem C09_every_parsed_program_is_well_formed ts p :
+  tinv ts = true -> parse_tokens ts = ParsedOk p -> wf_program p = true.
+Proof. exact (parsed_program_is_well_formed ts p). Qed.
+Print Assumptions C09_every_parsed_program_is_well_formed.
+
+Theorem C09_evaluate_string_never_panics cx src data : evaluate_string cx src data <> RenderPanic.
+Proof. exact (evaluate_string_never_panics cx src data). Qed.
+Print Assumptions C09_evaluate_string_never_panics.
